@@ -624,6 +624,7 @@ func c19Case(c *core.Ctx, idx int) {
 		c07YieldMode = 0
 		c07Sched = nil
 		rec.Count("blocked_worker_bypassed", s.Blocked)
+		rec.Count("idle_but_runnable_not_a_deadlock", s.Starved)
 		if !ok && s.Why == "watchdog" {
 			rec.Count("inconclusive_trials", 1)
 			return
